@@ -336,6 +336,7 @@ type EventLog struct {
 	mu     sync.Mutex
 	Lines  []string
 	Keep   bool // keep full lines (replay/debug); always hashed
+	Sink   io.Writer
 	h      uint64
 	n      int
 	hasher interface {
@@ -354,6 +355,9 @@ func (l *EventLog) Add(format string, a ...any) {
 	l.hasher.Write([]byte(line))
 	l.hasher.Write([]byte{'\n'})
 	l.n++
+	if l.Sink != nil {
+		io.WriteString(l.Sink, line+"\n")
+	}
 	if l.Keep {
 		l.Lines = append(l.Lines, line)
 	} else {
